@@ -152,9 +152,19 @@ def run(ctx):
                                       "strings select their own enumerators", floor=5)
     enum = [e["n"] for e in prog.enum("ShellCommand::DepsStyle")["enumerators"]]
     sw = [b for b in f.blocks.values() if b.term and b.term["cls"] == "SwitchStmt" and "depsStyle" in expr_str(b.cond())]
-    if len(sw) != 1:
-        raise AnalysisBroken("deps-style switch not found")
-    cases = [c.get("cn", "").split("::")[-1] for c in sw[0].term["cases"] if isinstance(c, dict)]
+    if len(sw) == 1:
+        cases = [c.get("cn", "").split("::")[-1] for c in sw[0].term["cases"] if isinstance(c, dict)]
+    else:
+        # an if-chain over the same enumerators: the styles that some branch of the function establishes for depsStyle
+        cases = []
+        for b in f.blocks.values():
+            c_ = b.cond()
+            if c_ is not None and "depsStyle" in expr_str(c_):
+                for x in c_.walk():
+                    if x.get("k") == "ref" and x.get("dk") == "enumconst" and x.get("n") in enum and x.get("n") not in cases:
+                        cases.append(x["n"])
+        if not cases:
+            raise AnalysisBroken("deps-style dispatch not found")
     r.check(sorted(cases) == sorted(enum), "processDiscoveredDependencies|all-styles-handled", "%s" % sorted(cases), "switch handles %s of %s" % (sorted(cases), sorted(enum)), f)
     want = {"Makefile": ("processMakefileDiscoveredDependencies", "false"), "DependencyInfo": ("processDependencyInfoDiscoveredDependencies", None),
             "MakefileIgnoringSubsequentOutputs": ("processMakefileDiscoveredDependencies", "true")}
@@ -163,7 +173,7 @@ def run(ctx):
         if nm not in ("processMakefileDiscoveredDependencies", "processDependencyInfoDiscoveredDependencies"):
             continue
         st = bf.at_node(c) or frozenset()
-        style = [a.split("=")[-1].split("::")[-1] for a, p in st if a.startswith("switch:depsStyle")]
+        style = cfg.established_cases(st, enum)
         flag = expr_str(core(arg_nodes(c)[-1])) if nm.startswith("processMakefile") else None
         ok = len(style) == 1 and style[0] in want and want[style[0]] == (nm, flag)
         r.check(ok, "processDiscoveredDependencies|style %s" % (style[0] if style else "?"), "-> %s(%s)" % (nm, flag), "style %s is parsed by %s(flag=%s)" % (style, nm, flag), f, c)
